@@ -233,11 +233,14 @@ def _solve_one(payload):
     raise NotImplementedError
 
 
-def discharge(obls, timeout_ms=20000, retry=False):
+def discharge(obls, timeout_ms=20000, retry=False, deadline=None):
     """discharge obligations in-process (z3 objects are not picklable; each obligation is
     small, so sequential discharge is fast; thorough tier re-checks with cvc5)."""
     for ob in obls:
-        st, solver, dt, model, lem = prove(ob.hyps, ob.goal, timeout_ms=timeout_ms, scale=3 if retry else 1)
+        if deadline is not None and time.time() > deadline:
+            ob.status, ob.solver, ob.time_s = "unknown", "budget", 0.0
+            continue
+        st, solver, dt, model, lem = prove(ob.hyps, ob.goal, timeout_ms=timeout_ms, scale=2 if retry else 1)
         ob.status, ob.solver, ob.time_s = st, solver, dt
         ob.meta["lemmas"] = lem
         if model is not None:
